@@ -6,7 +6,7 @@ WIP = "check not built yet in this round (work in progress; see DESIGN.md sectio
 CHECKS = {
  "C01": dict(
     engine="E1+E3", category="other", design_ref="DESIGN.md 4/C01, 3 (K4,K6,K16)",
-    technique="CBMC DFCC function+loop contracts on extracted update loop / swap (unbounded proof) + bounded enforcement of the whole-function contract on the real templates",
+    technique="CBMC DFCC function+loop contracts on the extracted update loop / swap (unbounded in csd), on the phase of mcb_sva_signed (modular against the search contract) and on the COMPOSED main loops (quantified invariants, csd<=8/10: unit lower-triangular witness/cycle incidence) + bounded enforcement of the whole-function contract on the real templates",
     text="Independence mechanism proved deductively for all cycle-space dimensions (support-update loop K4 at 3 sites, sparsest-support swap K6 at 2 sites, modular over SpVecGF2 operator contracts); the whole-function postcondition (count, simple cycles of the caller's edges, GF(2) rank) is a bounded stand-in: all labelled graphs n<=5 (thorough 6), all weightings n<=4, tie-heavy families, seeded random n<=9, double and int.",
     note="Assumes: SpVecGF2 operator contracts K2/K3 (checked bounded under C17), view abstraction to 64 coordinates, ForestIndex bijection (C16), search-function contracts K9-K11 only bounded. CBMC, goto-instrument, g++/Boost trusted."),
  "C02": dict(
